@@ -60,7 +60,7 @@ theorem ReachT.le {c : Cfg} {sig : Bool} {t0 tc : Nat} {s : St} (h : ReachT c si
   | step i _ hle ih => omega
 
 /-- the shutdown timer's deadline is never later than `D` after the cached clock of the latest poll
-(it is `cached + D` of the poll that armed it; fix d7d4f66 removed the re-arming) -/
+(it is `cached + D` of the poll that armed it; fix 71715de removed the re-arming) -/
 theorem C06_shutdown_deadline {c : Cfg} {sig : Bool} {t0 tc : Nat} {s : St} (h : ReachT c sig t0 tc s) :
     ∀ d, s.sdTimer = .active d → c.D ≠ 0 ∧ d ≤ tc + c.D := by
   induction h with
@@ -76,7 +76,7 @@ the connection waiting in SHUTDOWN (not complete, no immediate re-poll requested
 timer is running with a deadline `≤ t + D`, and *whatever happens afterwards* — any later events,
 with `poll_flush` / `poll_shutdown` Pending for ever, bytes or EOF arriving, any clock values — the
 connection future is complete after the first poll at or after `t + D`.  (tokio wakes the task at
-the deadline: trusted, observed by the harness.)  False before fixes d7d4f66 / 393d1a8 (F13, F14). -/
+the deadline: trusted, observed by the harness.)  False before fixes 71715de / 3e7b6bd (F13, F14). -/
 theorem C06_shutdown_bounded {c : Cfg} {sig : Bool} {t0 tc : Nat} {s : St} (h : ReachT c sig t0 tc s) (hD : c.D ≠ 0)
     (i : In) (hc : tc ≤ i.cached) (hcl : i.cached ≤ i.now)
     (h1 : (poll c s i).s.complete = false) (h2 : (poll c s i).s.shutdown = true)
@@ -102,7 +102,7 @@ theorem C06_shutdown_bounded {c : Cfg} {sig : Bool} {t0 tc : Nat} {s : St} (h : 
 /-- **C06_linger_bounded.**  Same for LINGER (early response to a request whose body is unread):
 the timer runs with a deadline `d ≤ t + D`; at the first poll at or after `d` LINGER is over, and one
 more `D` after that poll the connection is complete — whatever the peer does, including never
-reading the response (fix 0ec2d32) and never closing. -/
+reading the response (fix 0e4d0ef) and never closing. -/
 theorem C06_linger_bounded {c : Cfg} {sig : Bool} {t0 tc : Nat} {s : St} (h : ReachT c sig t0 tc s) (hD : c.D ≠ 0)
     (i : In) (hc : tc ≤ i.cached) (hcl : i.cached ≤ i.now)
     (h1 : (poll c s i).s.complete = false) (h3 : (poll c s i).s.linger = true)
@@ -164,7 +164,7 @@ theorem C06_slow_head_not_before (c : Cfg) (i : In) (s : St) (d : Nat)
 /-- **C06_slow_head (at/after the deadline).**  If no request head has been decoded (the head
 timer is still running) and a poll happens at or after the deadline, then a 408 with
 `Content-Length: 0` is queued behind whatever is in the write buffer, the timer is cleared (so
-there is exactly one 408: fix a62d374), and the poll ends with SHUTDOWN set. -/
+there is exactly one 408: fix 446aadc), and the poll ends with SHUTDOWN set. -/
 theorem C06_slow_head_fires {c : Cfg} {sig : Bool} {s : St} (h : Reach c sig s) (i : In) (d : Nat)
     (hc : s.complete = false) (hk : s.headTimer = .active d) (hd : d ≤ i.now) :
     (poll c s i).s.shutdown = true ∧
